@@ -50,6 +50,7 @@ structure Params where
   agree     : Nat
   wdFee     : Int
   rejectThreshold : Int
+  minFee : Int            -- MinTransactionFee
   deriving DecidableEq, Repr
 
 structure State where
@@ -68,6 +69,9 @@ inductive Tx
   | rejvotes (id : Nat) (amount : Int)
   | track (id : Nat) (k : TKind) (stage : Nat)
   | withdraw (id : Nat) (amount : Int)
+  -- CRCProposalWithdraw payload version 0: spends committee UTXOs worth `inp`, pays `out0` to the recipient,
+  -- optional second output `(value, goes back to the committee address)`
+  | withdraw0 (id : Nat) (inp out0 : Int) (out1 : Option (Int × Bool))
   deriving DecidableEq, Repr
 
 def total (bs : List BEntry) : Int := bs.foldr (fun b acc => b.amount + acc) 0
@@ -145,6 +149,24 @@ def checkWithdraw (P : Params) (p : Prop') (amount : Int) : Option String :=
   else if amount ≤ P.wdFee then some "small"
   else none
 
+def out1Val : Option (Int × Bool) → Int
+  | some (v, _) => v
+  | none => 0
+
+/-- the part of the second output that returns to the committee address -/
+def out1Back : Option (Int × Bool) → Int
+  | some (v, true) => v
+  | _ => 0
+
+/-- payload version 0: the transaction itself moves the committee's coins -/
+def checkWithdraw0 (P : Params) (p : Prop') (inp out0 : Int) (out1 : Option (Int × Bool)) : Option String :=
+  if p.status ≠ .voterAgreed ∧ p.status ≠ .finished ∧ p.status ≠ .aborted ∧ p.status ≠ .terminated then some "status"
+  else if inp - out0 - out1Val out1 < P.minFee then some "fee"
+  else if avail p.budgets = 0 then some "nothing"
+  else if (match out1 with | some (_, false) => true | _ => false) then some "out1"
+  else if out0 + (inp - out0 - out1Val out1) ≠ avail p.budgets then some "amount"
+  else none
+
 /-- `none` = accepted. -/
 def check (P : Params) (s0 : State) (acc : Int) : Tx → Option String
   | .propose _ bs => checkPropose s0 acc bs
@@ -156,6 +178,9 @@ def check (P : Params) (s0 : State) (acc : Int) : Tx → Option String
   | .withdraw id amount => match get id s0.props with
     | none => some "noprop"
     | some p => checkWithdraw P p amount
+  | .withdraw0 id inp out0 out1 => match get id s0.props with
+    | none => some "noprop"
+    | some p => checkWithdraw0 P p inp out0 out1
 
 /-! ## updates -/
 
@@ -200,6 +225,9 @@ def propStep (_h : Nat) (p0 : Prop') : Tx → Prop' → Prop'
     | .common => p      -- only TrackingCount
     | .rejected => p    -- only BudgetsStatus
   | .withdraw _ amount, p => { p with budgets := markWn (withdrawing p0.budgets) p.budgets, paid := p.paid + amount }
+  | .withdraw0 _ inp _ out1, p =>
+    -- what leaves the committee address for this proposal: the inputs minus what returns to it
+    { p with budgets := markWn (withdrawing p0.budgets) p.budgets, paid := p.paid + (inp - out1Back out1) }
   | _, p => p
 
 def applyTx (h : Nat) (s0 s : State) (tx : Tx) : State :=
@@ -209,7 +237,7 @@ def applyTx (h : Nat) (s0 s : State) (tx : Tx) : State :=
              props := match get id s.props with
                | some _ => s.props
                | none => (id, { budgets := bs, status := .registered, paid := 0, votes := [], regH := h, voteH := 0, reject := 0 }) :: s.props }
-  | .review id _ _ | .rejvotes id _ | .withdraw id _ =>
+  | .review id _ _ | .rejvotes id _ | .withdraw id _ | .withdraw0 id _ _ _ =>
     match get id s0.props with
     | none => s
     | some p0 => { s with props := upd id (propStep h p0 tx) s.props }
